@@ -112,10 +112,11 @@ def compare(a, b):
         kb = [tuple(x)[:3] + tuple(x)[5:] for x in b["diags"] if not diag.is_advisory(x)]
         only_a = [k for k in ka if k not in kb]
         only_b = [k for k in kb if k not in ka]
+        files = sorted({k[0] for k in only_a + only_b})
         if only_a:
-            return ("stale-diagnostic", "only in first: %s" % only_a[:3], sorted({k[-1] or "nocode" for k in only_a}))
+            return ("stale-diagnostic", "only in first: %s" % only_a[:3], sorted({k[-1] or "nocode" for k in only_a}), files)
         if only_b:
-            return ("missing-diagnostic", "only in second: %s" % only_b[:3], sorted({k[-1] or "nocode" for k in only_b}))
+            return ("missing-diagnostic", "only in second: %s" % only_b[:3], sorted({k[-1] or "nocode" for k in only_b}), files)
         if adva != advb:
             # once-per-run notes replayed a different number of times / at other places / not at all (a fresh module's
             # cached error lines carry them or not depending on where an EARLIER run attached them)
@@ -171,3 +172,40 @@ def confirm_prefix(st0, ops, upto: int, flags, seed_prefix: str):
     finally:
         for d in (root, cache, cold_dir):
             mypyrun.rmtree(d)
+
+
+def cyclic_files(st) -> set:
+    """Paths of modules that lie on an import cycle of the project state (incl. parent packages of imported submodules)."""
+    mods = st["mods"]
+    edges = {m: set() for m in mods}
+    for m, mm in mods.items():
+        for d in mm["imports"]:
+            if d in mods:
+                edges[m].add(d)
+            parts = d.split(".")
+            for i in range(1, len(parts)):
+                par = ".".join(parts[:i])
+                if par in mods:
+                    edges[m].add(par)
+        if "." in m:
+            par = m.rsplit(".", 1)[0]
+            if par in mods:
+                edges[m].add(par)  # importing a submodule imports its package
+    # Tarjan-free: reachability closure (projects are tiny)
+    reach = {m: set(e) for m, e in edges.items()}
+    changed = True
+    while changed:
+        changed = False
+        for m in reach:
+            new = set()
+            for d in reach[m]:
+                new |= reach.get(d, set())
+            if not new <= reach[m]:
+                reach[m] |= new
+                changed = True
+    out = set()
+    for m in mods:
+        if m in reach[m]:
+            out.add(project.path_of(m, mods[m]["layout"]))
+            out.add(project.path_of(m, mods[m]["layout"], ".pyi"))
+    return out
